@@ -13,6 +13,7 @@ reads and writes them identically.
 """
 import asyncio
 import json
+import re
 import os
 import signal
 import sys
@@ -165,18 +166,41 @@ def _flat_dict(v):
     return isinstance(v, dict) and all(_no_dict(x) for x in v.values())
 
 
+def _pending(v):
+    """number of closing 'e' bytes lbry's decoder leaves unread after v (it returns the index OF a dict's 'e')"""
+    if isinstance(v, dict):
+        vals = list(v.values())
+        return 1 + (_pending(vals[-1]) if vals else 0)
+    if isinstance(v, list):
+        return _pending(v[-1]) if v else 0
+    return 0
+
+
+def _tail_ok(v):
+    """dictionaries (and lists ending in one) occur only as the LAST element / value of their container: the
+    shapes on which the dict-end index of lbry's decoder makes no difference (every protocol message is one)"""
+    if isinstance(v, dict):
+        vals = list(v.values())
+    elif isinstance(v, list):
+        vals = v
+    else:
+        return True
+    return all(_tail_ok(x) for x in vals) and all(_pending(x) == 0 for x in vals[:-1])
+
+
 def ref_header_broken(data):
-    """True when the datagram is canonical bencode of a dictionary with integer keys that claims a packet type
+    """True when the datagram is canonical bencode (of a shape that does not depend on the decoder's dict-end
+    index, see _tail_ok) of a dictionary with integer keys that claims a packet type
     but whose header is not that of a protocol message (type outside 0..2, an id missing, not bytes or of the
     wrong length, a required field of its class missing): such a datagram must be dropped"""
     try:
         d = ref_bdecode(data)
     except (RefError, ValueError):
         return False
-    if not isinstance(d, dict) or not d or not all(isinstance(k, int) for k in d):
+    if not isinstance(d, dict) or not d or not all(isinstance(k, int) for k in d) or not _tail_ok(d):
         return False
     t = d.get(0)
-    if t not in (0, 1, 2):
+    if not isinstance(t, int) or t not in (0, 1, 2):
         return True
     need = {0: (1, 2, 3), 1: (1, 2, 3), 2: (1, 2, 3, 4)}[t]
     if any(k not in d for k in need):
@@ -269,6 +293,14 @@ def err_name(e):
     return 'OTHER:' + type(e).__name__
 
 
+class Hang(BaseException):
+    pass
+
+
+def _on_alarm(*_):
+    raise Hang()
+
+
 def impl_message(m):
     if isinstance(m, RequestDatagram):
         return {'cls': 'request', 'rpc_id': m.rpc_id.hex(), 'node_id': m.node_id.hex(), 'method': jv(m.method),
@@ -280,10 +312,18 @@ def impl_message(m):
 
 
 def impl_decode(data):
+    old = signal.signal(signal.SIGALRM, _on_alarm)
+    signal.alarm(10 if Node.hangs < 3 else 1)
     try:
         return {'msg': impl_message(decode_datagram(data))}
+    except Hang:
+        Node.hangs += 1
+        return {'err': 'HANG'}
     except Exception as e:  # noqa
         return {'err': err_name(e)}
+    finally:
+        signal.alarm(0)
+        signal.signal(signal.SIGALRM, old)
 
 
 # ------------------------------------------------------------------------------------------------
@@ -302,14 +342,6 @@ class FakeTransport:
 
     def close(self):
         pass
-
-
-class Hang(BaseException):
-    pass
-
-
-def _on_alarm(*_):
-    raise Hang()
 
 
 class Node:
@@ -629,6 +661,35 @@ def gen_near_valid(rng):
     return raw_enc(tuple((k, conv(v)) for k, v in items))
 
 
+LEN_RE = re.compile(rb'(\d+):')
+INT_RE = re.compile(rb'i(-?\d+)e')
+
+
+def gen_lexical(rng, valid):
+    """a valid datagram with ONE length prefix or integer token rewritten (sign, whitespace, underscore, zeros,
+    negative, off by one, huge): what Python's int() accepts decides between the same message, a different
+    one and a drop"""
+    b = valid[rng.randrange(len(valid))]
+    if rng.random() < 0.6:
+        ms = list(LEN_RE.finditer(b))
+        m = ms[rng.randrange(len(ms))]
+        n = int(m.group(1))
+        new = rng.choice([b'-%d' % n, b'-1', b'-2', b'-3', b'-0', b'+%d' % n, b' %d' % n, b'%d ' % n, b'\t%d\n' % n, b'0%d' % n,
+                          b'00%d' % n, b'%d_' % n, b'_%d' % n, b'%d' % (n + 1), b'%d' % max(n - 1, 0), b'%d' % (n + 1000),
+                          b'1_0' if n == 10 else b'%d_0' % (n // 10) if n % 10 == 0 and n else b'0_%d' % n, b'', b'-',
+                          b'9' * 30, b'9' * (4300 if rng.random() < 0.03 else 40), b'9' * (4301 if rng.random() < 0.03 else 41), b'0x%x' % n, b'%de0' % n, b'%d.0' % n, b'- %d' % n]) + b':'
+    else:
+        ms = list(INT_RE.finditer(b))
+        if not ms:
+            return b
+        m = ms[rng.randrange(len(ms))]
+        n = int(m.group(1))
+        new = b'i' + rng.choice([b'-%d' % n, b'+%d' % n, b' %d ' % n, b'0%d' % n, b'-0', b'', b'-', b'+', b'%d_' % n, b'%d_0' % n,
+                                 b'1__0', b'%d' % (n + 1), b'%d' % (n - 1), b'%d' % (n + 2), b'0x1', b'1e1', b'1.0', b'\x0b%d\x0c' % n,
+                                 b'9' * (4300 if rng.random() < 0.03 else 40), b'9' * (4301 if rng.random() < 0.03 else 41), b'--1', b'- 1']) + b'e'
+    return b[:m.start()] + new + b[m.end():]
+
+
 def gen_oversized(rng):
     """requests that are structurally fine but carry one very large field"""
     rpc, node = rbytes(rng, 20), rbytes(rng, 48)
@@ -725,7 +786,7 @@ def check_datagram(ctx, data, sender, kind, expect=None):
 
     # ---- monitor: the property's statement on the implementation's behaviour --------------------
     bad = None
-    if obs['escaped'] == 'HANG':
+    if obs['escaped'] == 'HANG' or impl.get('err') == 'HANG':
         bad = 'datagram_received did not return (10 s alarm; 1 s after the third hang of a run)'
     elif obs['escaped']:
         bad = f"{obs['escaped']} escaped KademliaProtocol.datagram_received"
@@ -989,7 +1050,8 @@ def main(run):
         'sort on every side of the fixed keys, peer pages, random nested values with dictionaries in tail position); '
         'garbage into the REAL KademliaProtocol.datagram_received: every truncation and 1..3-byte mutation (replace / '
         'insert / delete, bencode-significant and UTF-8-boundary bytes) of valid datagrams, valid messages re-encoded after '
-        'one or two FIELD edits (id lengths 19/21/47/49, packet type, missing/extra/duplicated/bytes-keyed fields, method, '
+        'one length prefix or integer token rewritten (sign, whitespace, underscore, zeros, negative, off by one, huge), '
+        'or after one or two FIELD edits (id lengths 19/21/47/49, packet type, missing/extra/duplicated/bytes-keyed fields, method, '
         'args shapes, store argument boundaries, invalid UTF-8 error texts), type-confused dictionaries '
         '(every field of every bencode type, keys reordered / missing / duplicated / bytes-vs-int), oversized fields, '
         'nesting <= 100 or >= 3000 (outcomes that depend on Python\'s recursion limit are detected by running the model '
@@ -1035,6 +1097,8 @@ def main(run):
         b = valid[rng.randrange(len(valid))]
         k = rng.choice([1, 1, 2, 3])
         check_datagram(ctx, mutate(rng, b, k), rng.choice(SENDERS), 'mutation-%d' % k)
+    for i in range(vlib.scaled(T, 2500, 60000)):
+        check_datagram(ctx, gen_lexical(rng, valid), rng.choice(SENDERS), 'lexical')
     if T == 'thorough':
         for b in valid[:12]:          # exhaustive single-byte replacement
             for pos in range(len(b)):
@@ -1095,7 +1159,10 @@ def main(run):
     for n in range(0, 5 if T == 'quick' else 6):
         for ch in chunks(all_strings(balpha, n), 1000):
             check_bdecode_batch(ctx, ch, 'bdecode-%dbyte' % n)
-    run.exhaustive = True
+    run.notes.append('exhaustively enumerated sub-scopes: int(bytes) on all 1-byte strings, all 2-byte strings over a 21-byte '
+                     'alphabet (thorough: all 65536), 3- and 5-byte strings over small alphabets; UTF-8 validity on all 1-byte '
+                     'strings and boundary 2/3/4-byte sequences (thorough: all 2-byte strings); bdecode on all strings of length '
+                     '<= 4 (thorough: 5) over the alphabet i l d e : 0 1 - a')
     lap('exhaustive small scopes')
     # -- compact addresses -------------------------------------------------------------------------
     for i in range(vlib.scaled(T, 600, 20000)):
